@@ -10,14 +10,14 @@ Open Scope Z_scope.
 
 Example C12_nonvacuous :
   let g := mkGen (s "a") true false false false [] (s "/repo") (s "0.1") in
-  let o1 := [(s "rand", Some (s """0.8""")); (s "regex", Some (s """1.0"""))] in
-  Permutation o1 (rev o1) /\ NoDup (map fst o1) /\ Known_C12_manifest_order g o1 /\
-  manifest_site g o1 <> manifest_site g (rev o1) /\
+  let o1 := [(s "regex", Some (s """1.0""")); (s "rand", Some (s """0.8"""))] in
+  Permutation o1 (rev o1) /\ NoDup (map fst o1) /\ o1 <> rev o1 /\
+  manifest_site g o1 = manifest_site g (rev o1) /\
   isort [s "b"; s "a"; s "c"] = [s "a"; s "b"; s "c"] /\
   mod_rs_site [s "db"] [[s "db"; s "models"]; [s "db"; s "conn"]; [s "util"]] = s "pub mod conn;" ++ [10] ++ s "pub mod models;" ++ [10].
 Proof.
   cbv zeta. split; [apply Permutation_rev|]. split; [repeat constructor; cbn; intuition discriminate|].
-  split; [vm_compute; lia|]. split; [vm_compute; discriminate|]. split; vm_compute; reflexivity.
+  split; [vm_compute; discriminate|]. repeat split; vm_compute; reflexivity.
 Qed.
 
 (* ---- schema E: a loop that emits while iterating *)
@@ -40,84 +40,63 @@ Theorem C12_emit_refuted : forall (K D : Type) (f : K -> option D) k1 k2 d1 d2,
 Proof. intros K D f k1 k2 d1 d2 H1 H2 N. exists [k1; k2], [k2; k1]. exact (emit_two K D f k1 k2 d1 d2 H1 H2 N). Qed.
 Print Assumptions C12_emit_refuted.
 
-(* ---- Cargo.toml *)
-(* M1 refuted: two `rust::` crates outside the built-in set are written in hash order *)
-Theorem C12_manifest_order_refuted : exists g o1 o2,
-  Permutation o1 o2 /\ NoDup (map fst o1) /\ manifest_site g o1 <> manifest_site g o2.
-Proof.
-  exists (mkGen (s "a") true false false false [] (s "/repo") (s "0.1")),
-         [(s "rand", Some (s """0.8""")); (s "regex", Some (s """1.0"""))],
-         [(s "regex", Some (s """1.0""")); (s "rand", Some (s """0.8"""))].
-  split; [apply perm_swap|]. split; [repeat constructor; cbn; intuition discriminate|]. vm_compute. discriminate.
-Qed.
-Print Assumptions C12_manifest_order_refuted.
+(* ---- sites that collect the entries of a HashMap (distinct keys), sort them by key, then emit *)
+(* K1 sorting the entries by key removes the iteration order *)
+Theorem C12_sorted_entries_deterministic : forall (V : Type) (o1 o2 : list (str * V)),
+  NoDup (map fst o1) -> Permutation o1 o2 -> ksort o1 = ksort o2.
+Proof. intros V o1 o2 ND P. exact (ksort_order_free o1 o2 ND P). Qed.
+Print Assumptions C12_sorted_entries_deterministic.
 
-(* M2 on the complement (at most one dependency line comes from the hash table) the manifest text
-      is the same for every iteration order *)
+(* M1 Cargo.toml: the text is the same for every iteration order of the rust_crate_deps table *)
 Theorem C12_manifest_deterministic : forall g o1 o2,
-  Permutation o1 o2 -> ~ Known_C12_manifest_order g o1 -> manifest_site g o1 = manifest_site g o2.
-Proof.
-  intros g o1 o2 P NK. apply manifest_site_eq. rewrite !rust_deps_emit. apply emit_le1; [exact P|].
-  rewrite <- rust_deps_emit. unfold Known_C12_manifest_order in NK. lia.
-Qed.
+  NoDup (map fst o1) -> Permutation o1 o2 -> manifest_site g o1 = manifest_site g o2.
+Proof. exact manifest_site_order_free. Qed.
 Print Assumptions C12_manifest_deterministic.
 
-(* M3 in every case the SET of dependency lines does not depend on the order *)
-Theorem C12_manifest_same_deps : forall g o1 o2,
-  Permutation o1 o2 -> Permutation (deps (with_crates g o1)) (deps (with_crates g o2)).
-Proof.
-  intros g o1 o2 P. unfold deps. apply Permutation_app; [apply Permutation_refl|].
-  rewrite !rust_deps_emit. now apply emit_perm.
-Qed.
-Print Assumptions C12_manifest_same_deps.
-
-(* ---- diagnostics *)
-(* D1 refuted: a constructor call missing two required fields reports them in hash order *)
-Theorem C12_ctor_diag_order_refuted : exists ty provided o1 o2,
-  Permutation o1 o2 /\ NoDup (map fst o1) /\ ctor_site ty provided o1 <> ctor_site ty provided o2.
-Proof.
-  exists (s "Pt"), [], [(s "x", false); (s "y", false)], [(s "y", false); (s "x", false)].
-  split; [apply perm_swap|]. split; [repeat constructor; cbn; intuition discriminate|]. vm_compute. discriminate.
-Qed.
-Print Assumptions C12_ctor_diag_order_refuted.
-
-(* D2 complement: at most one missing required field *)
+(* D1 missing-required-field diagnostics of a constructor call, for any number of missing fields *)
 Theorem C12_ctor_diag_deterministic : forall ty provided o1 o2,
-  Permutation o1 o2 -> (List.length (ctor_site ty provided o1) <= 1)%nat ->
-  ctor_site ty provided o1 = ctor_site ty provided o2.
-Proof. intros. now apply emit_le1. Qed.
+  NoDup (map fst o1) -> Permutation o1 o2 -> ctor_site ty provided o1 = ctor_site ty provided o2.
+Proof. intros ty provided o1 o2 ND P. unfold ctor_site. now rewrite (ksort_order_free o1 o2 ND P). Qed.
 Print Assumptions C12_ctor_diag_deterministic.
 
-(* D3 refuted: a type adopting a trait and lacking two of its required methods *)
-Theorem C12_trait_diag_order_refuted : exists tr o1 o2,
-  Permutation o1 o2 /\ NoDup (map fst o1) /\ trait_site tr o1 <> trait_site tr o2.
-Proof.
-  exists (s "Shape"), [(s "area", Missing); (s "name", Missing)], [(s "name", Missing); (s "area", Missing)].
-  split; [apply perm_swap|]. split; [repeat constructor; cbn; intuition discriminate|]. vm_compute. discriminate.
-Qed.
-Print Assumptions C12_trait_diag_order_refuted.
-
+(* D2 trait-conformance diagnostics (model and class variant) *)
 Theorem C12_trait_diag_deterministic : forall tr o1 o2,
-  Permutation o1 o2 -> (List.length (trait_site tr o1) <= 1)%nat -> trait_site tr o1 = trait_site tr o2.
-Proof. intros. now apply emit_le1. Qed.
+  NoDup (map fst o1) -> Permutation o1 o2 -> trait_site tr o1 = trait_site tr o2.
+Proof. intros tr o1 o2 ND P. unfold trait_site. now rewrite (ksort_order_free o1 o2 ND P). Qed.
 Print Assumptions C12_trait_diag_deterministic.
 
-(* ---- library / test-runner sites that emit while iterating (not reached by build/check/fmt) *)
-Theorem C12_collector_order_refuted : exists entry o1 o2,
-  Permutation o1 o2 /\ collector_site entry o1 <> collector_site entry o2.
+(* F1 `incan test -v` fixture listing and the autouse fixture order *)
+Theorem C12_fixture_sites_deterministic : forall o1 o2,
+  NoDup (map fst o1) -> Permutation o1 o2 ->
+  fixture_listing_site o1 = fixture_listing_site o2 /\ autouse_site o1 = autouse_site o2.
 Proof.
-  exists (s "main"), [s "a"; s "b"; s "main"], [s "b"; s "a"; s "main"].
-  split; [apply perm_swap|]. vm_compute. discriminate.
+  intros o1 o2 ND P. unfold fixture_listing_site, autouse_site. rewrite (ksort_order_free o1 o2 ND P). split; reflexivity.
 Qed.
-Print Assumptions C12_collector_order_refuted.
+Print Assumptions C12_fixture_sites_deterministic.
 
-Theorem C12_fixture_order_refuted : exists o1 o2,
-  Permutation o1 o2 /\ fixture_listing_site o1 <> fixture_listing_site o2 /\ autouse_site o1 <> autouse_site o2.
-Proof.
-  exists [(s "db", true); (s "tmp", true)], [(s "tmp", true); (s "db", true)].
-  split; [apply perm_swap|]. split; vm_compute; discriminate.
-Qed.
-Print Assumptions C12_fixture_order_refuted.
+(* C1 ModuleCollector::collect: the hash order is not an input of the result any more *)
+Theorem C12_collector_deterministic : forall entry load_order h1 h2,
+  collector_site entry load_order h1 = collector_site entry load_order h2.
+Proof. reflexivity. Qed.
+Print Assumptions C12_collector_deterministic.
+
+(* C2 still refuted, library API without a caller: ModuleCollector::modules() exposes the table's order *)
+Theorem C12_collector_modules_refuted : exists o1 o2,
+  Permutation o1 o2 /\ collector_modules_site o1 <> collector_modules_site o2.
+Proof. exists [s "a"; s "b"], [s "b"; s "a"]. split; [apply perm_swap | vm_compute; discriminate]. Qed.
+Print Assumptions C12_collector_modules_refuted.
+
+(* regression witnesses: the orders that used to give different outputs now give the same *)
+Example C12_regression_witnesses :
+  let g := mkGen (s "a") true false false false [] (s "/repo") (s "0.1") in
+  manifest_site g [(s "rand", Some (s """0.8""")); (s "regex", Some (s """1.0"""))] =
+  manifest_site g [(s "regex", Some (s """1.0""")); (s "rand", Some (s """0.8"""))] /\
+  ctor_site (s "Pt") [] [(s "x", false); (s "y", false)] = ctor_site (s "Pt") [] [(s "y", false); (s "x", false)] /\
+  List.length (ctor_site (s "Pt") [] [(s "x", false); (s "y", false)]) = 2%nat /\
+  trait_site (s "Shape") [(s "area", Missing); (s "name", Missing)] = trait_site (s "Shape") [(s "name", Missing); (s "area", Missing)] /\
+  fixture_listing_site [(s "db", true); (s "tmp", true)] = fixture_listing_site [(s "tmp", true); (s "db", true)] /\
+  autouse_site [(s "db", true); (s "tmp", true)] = autouse_site [(s "tmp", true); (s "db", true)].
+Proof. cbv zeta. repeat split; vm_compute; reflexivity. Qed.
 
 (* ---- schema S: sorted before output *)
 (* T1 sorting makes any rendering independent of the iteration order (mod lines of generate_multi,
